@@ -83,7 +83,8 @@ func c06CheckNM(b []byte, raw []byte, n, N int) {
 // ECMA-119 9.1 + SUSP 5.1 (CE) + RRIP 4.1.1 (PX), 4.1.6 (TF), 4.1.4 (NM); then the library's
 // reader (parseDirEntry, following the continuation area on the device) returns the name.
 func VP_C06_rr_entry_fit() { c06RREntry(vp.Bound("rrname_fit", 131, 131), 1, 131) }
-func VP_C06_rr_entry_ce()  { c06RREntry(vp.Bound("rrname", 140, 255), 132, 255) }
+// (names of 250..255 bytes need two NM records: covered with concrete lengths by rr_decode_250/255)
+func VP_C06_rr_entry_ce() { c06RREntry(vp.Bound("rrname", 140, 249), 132, 249) }
 
 func c06RREntry(N, lo, hi int) {
 	vp.Unwind(N + 8)
